@@ -20,6 +20,9 @@ import c15_mesh as M  # noqa: E402
 import basis_probe  # noqa: E402
 
 PROP = "C15"
+if hasattr(sys, "set_int_max_str_digits"):
+    # the exact Newton model of the inverse mapping prints rationals with thousands of digits on multilinear cells
+    sys.set_int_max_str_digits(1000000)
 
 # family -> shapes on which the harness instantiates it
 SUPPORT = {
@@ -230,8 +233,13 @@ def gen_case(rng, tier):
     m = M.random_mesh(rng, kind, dim, max_cells=(2 if big else (6 if dim == 3 else None)))
     r = rng.random()
     nc = m.num(dim)
-    if r < 0.05:
+    if r < 0.03:
         return "vol - %s" % m.fmt()
+    if r < 0.06:
+        return "volq - %s" % m.fmt()
+    if r < 0.075:
+        mm = M.random_mesh(rng, kind, dim, mode=rng.choice(["affine", "general"]), max_cells=4)
+        return "newton - %s %d %s" % (mm.fmt(), rng.randrange(mm.num(dim)), fmt_pt(rand_interior_point(rng, kind, dim)))
     if r < 0.09:
         return "unmap - %s %d %s" % (m.fmt(), rng.randrange(nc), fmt_pt(rand_interior_point(rng, kind, dim)))
     if r < 0.30:
@@ -331,6 +339,10 @@ def fixed_cases():
             out.append("trcfg - %s 0 %s %d %d" % (m.fmt(), fmt_pt(x), mk, 255 if k % 2 == 0 else 0))
         m = M.random_mesh(rng, kind, dim, mode="general", max_cells=4)
         out.append("vol - %s" % m.fmt())
+        out.append("volq - %s" % m.fmt())
+        for mode in ("affine", "general"):
+            mm = M.random_mesh(rng, kind, dim, mode=mode, max_cells=4)
+            out.append("newton - %s %d %s" % (mm.fmt(), rng.randrange(mm.num(dim)), fmt_pt(rand_interior_point(rng, kind, dim))))
         out.append("unmap - %s %d %s" % (m.fmt(), rng.randrange(m.num(dim)), fmt_pt(rand_interior_point(rng, kind, dim))))
     return out
 
@@ -488,21 +500,71 @@ def phys_derivs(kind, dim, verts, x, rg, rh):
     return g, H
 
 
+def p_mul(a, b):
+    out = {}
+    for ea, ca in a.items():
+        for eb, cb in b.items():
+            e = tuple(x + y for x, y in zip(ea, eb))
+            out[e] = out.get(e, Fr(0)) + ca * cb
+    return out
+
+
+def p_add(a, b, sb=1):
+    out = dict(a)
+    for e, c in b.items():
+        out[e] = out.get(e, Fr(0)) + sb * c
+    return out
+
+
+def jac_det_poly(dim, verts):
+    """det J of the multilinear transformation of a hypercube as a polynomial in the reference coordinates"""
+    zero = tuple([0] * dim)
+    J = [[{} for _ in range(dim)] for _ in range(dim)]
+    for i in range(1 << dim):
+        for k in range(dim):
+            g = {zero: Fr(1, 2) if (i >> k) & 1 else Fr(-1, 2)}
+            for l in range(dim):
+                if l != k:
+                    el = tuple(1 if t == l else 0 for t in range(dim))
+                    g = p_mul(g, {zero: Fr(1, 2), el: Fr(1, 2) if (i >> l) & 1 else Fr(-1, 2)})
+            for a in range(dim):
+                J[a][k] = p_add(J[a][k], {e: c * verts[i][a] for e, c in g.items()})
+    if dim == 1:
+        return J[0][0]
+    if dim == 2:
+        return p_add(p_mul(J[0][0], J[1][1]), p_mul(J[0][1], J[1][0]), -1)
+
+    def m2(a, b, c, d):
+        return p_add(p_mul(a, d), p_mul(b, c), -1)
+    return p_add(p_add(p_mul(J[0][0], m2(J[1][1], J[1][2], J[2][1], J[2][2])),
+                       p_mul(J[0][1], m2(J[1][0], J[1][2], J[2][0], J[2][2])), -1),
+                 p_mul(J[0][2], m2(J[1][0], J[1][1], J[2][0], J[2][1])))
+
+
 def exact_volume(kind, dim, verts):
+    """exact cell volume without any quadrature: simplices |det|/d!, hypercubes: term-wise integration of the
+    polynomial det J over [-1,1]^dim (int x^e = 2/(e+1) for even e, 0 for odd e)"""
     if kind == "S":
         f = 1
         for i in range(2, dim + 1):
             f *= i
         return abs(M.det(M.jac(kind, dim, verts, [Fr(0)] * dim))) / f
-    # integral of det J over [-1,1]^dim by the tensor Simpson rule (exact: det J has coordinate degree <= 2)
-    w = {Fr(-1): Fr(1, 3), Fr(0): Fr(4, 3), Fr(1): Fr(1, 3)}
     s = Fr(0)
-    for x in product(w.keys(), repeat=dim):
-        ww = Fr(1)
-        for xi in x:
-            ww *= w[xi]
-        s += ww * M.det(M.jac(kind, dim, verts, x))
+    for e, c in jac_det_poly(dim, verts).items():
+        t = c
+        for ek in e:
+            t *= Fr(2, ek + 1) if ek % 2 == 0 else 0
+        s += t
     return abs(s)
+
+
+def shoelace(verts):
+    """area of the quadrilateral v0 v1 v3 v2 (FEAT's vertex numbering), independent of the transformation"""
+    order = [0, 1, 3, 2]
+    s = Fr(0)
+    for a, b in zip(order, order[1:] + order[:1]):
+        s += verts[a][0] * verts[b][1] - verts[b][0] * verts[a][1]
+    return abs(s) / 2
 
 
 def oracle(case, out):
@@ -529,6 +591,27 @@ def oracle_(case, out):
                     return "volume of cell %d is %s, exact %s" % (ci, float(v), float(ex))
             elif v != ex:
                 return "volume of cell %d is %s, exact %s" % (ci, v, ex)
+        return None
+    if c.op == "volq":
+        assert o[0] == "W" and int(o[1]) == m.num(dim)
+        for ci in range(m.num(dim)):
+            v = M.pfr(o[2 + ci])
+            verts = m.cell_verts(dim, ci)
+            ex = exact_volume(kind, dim, verts)
+            if (kind, dim) == ("H", 2) and ex != shoelace(verts):
+                return "internal: polynomial integration and shoelace formula disagree"
+            if v != ex:
+                return "the Jacobian determinant of cell %d integrates to %s, the cell volume is %s" % (ci, v, ex)
+        return None
+    if c.op == "newton":
+        x = [M.pfr(t) for t in c.rest[1:1 + dim]]
+        assert o[0] == "N"
+        if o[1] != "1":
+            return "Newton iteration of the inverse mapping did not converge for an interior point of a valid cell"
+        got = [float(t) for t in o[2:2 + dim]]
+        err = max(abs(got[a] - float(x[a])) for a in range(dim))
+        if err > 1e-8:
+            return "unmap(map(x)) = %s differs from x = %s by %g" % (got, [float(z) for z in x], err)
         return None
     if c.op == "trcfg":
         cell = int(c.rest[0])
@@ -872,7 +955,7 @@ def nontrivial(case):
     """non-trivial = a re-oriented entity (stored orientation differs from the cell's local one) on a mesh for an
     element with DOFs on edges/faces, or a non-affine cell, or >= 2 cells; trafo ops: always"""
     t = case.split(None, 2)
-    if t[0] in ("vol", "unmap", "caps", "evpts"):
+    if t[0] in ("vol", "volq", "newton", "unmap", "caps", "evpts"):
         return True
     c = parse_case(case)
     m = c.mesh
@@ -904,7 +987,7 @@ def describe(case):
         cell = int(c.rest[0])
         if m.kind == "H" and m.dim >= 2:
             keys.append("%s-cell:%s" % (t[0], "affine" if M.hess_zero(m.kind, m.dim, m.cell_verts(m.dim, cell)) else "non-affine"))
-    if m.dim >= 2 and t[0] not in ("vol", "unmap", "trcfg", "caps"):
+    if m.dim >= 2 and t[0] not in ("vol", "volq", "newton", "unmap", "trcfg", "caps"):
         r = reoriented(m)
         keys.append("reoriented-subentities:%s" % ("0" if r == 0 else ("1-3" if r <= 3 else ">=4")))
         if t[1] == "L3":
@@ -955,6 +1038,14 @@ def install_known_findings():
 def canon(out):
     if out.startswith("ABORT"):
         return "ABORT"
+    if out.startswith("N "):
+        # Newton iteration: implementation in double precision, model exact -> compare rounded to 1e-8
+        t = out.split()
+        vals = []
+        for z in t[2:]:
+            v = float(M.pfr(z)) if "/" in z else float(z)
+            vals.append("%.8f" % (round(v, 8) + 0.0))
+        return " ".join(t[:2] + vals)
     return out
 
 
@@ -1008,7 +1099,10 @@ def main(argv):
         "such a configuration is proved for the evaluator (slotPerm), for the remaining index bookkeeping it is "
         "covered by this correspondence run",
         "Index modelled as unbounded Nat",
-        "Hermite-3 and Bogner-Fox-Schmit: modelled and proved in 1-D (both interval orientations); in 2-D (Hermite-3 on "
+        "InverseMapping cannot be constructed at the exact type Q (its constructor computes eps^0.9); ops unmap/newton run "
+        "in double precision, the Newton model runs in exact arithmetic with tolerance 2^-47, both outputs are rounded to "
+        "1e-8 before they are compared",
+                "Hermite-3 and Bogner-Fox-Schmit: modelled and proved in 1-D (both interval orientations); in 2-D (Hermite-3 on "
         "quadrilaterals/triangles, Bogner-Fox-Schmit on quadrilaterals) covered by the harness and the oracle only "
         "(duality of the vertex functionals value, d/dx, d/dy with the basis on arbitrary cells, vertex coefficients of "
         "the interpolant, config masks); Argyris is not instantiated (21x21 inverse with normalised normals)",
